@@ -150,6 +150,11 @@ fn parse_u128(s: &str) -> u128 {
   s.parse().unwrap_or(0)
 }
 
+thread_local! {
+  /// txid of the transaction being realised (for `IdRef::Own`)
+  static OWN_TXID: std::cell::Cell<Option<Txid>> = const { std::cell::Cell::new(None) };
+}
+
 impl World {
   pub fn new(config: &Config) -> Self {
     let chain = config.chain;
@@ -433,6 +438,12 @@ impl World {
   }
 
   fn resolve_id(&self, m: &Model, r: &IdRef) -> Vec<u8> {
+    if let IdRef::Own(index) = r {
+      return id_value(ord::InscriptionId {
+        txid: OWN_TXID.with(|c| c.get()).unwrap_or(Txid::from_byte_array([5; 32])),
+        index: *index,
+      });
+    }
     let known = m.inscr.known_ids();
     let value = |id: ord::InscriptionId| id_value(id);
     match r {
@@ -462,6 +473,7 @@ impl World {
         index: *k % 3,
       }),
       IdRef::RawBytes(b) => b.clone(),
+      IdRef::Own(_) => unreachable!(),
     }
   }
 
@@ -867,12 +879,11 @@ impl World {
     }
     let input = taken
       .iter()
-      .zip(&spec.inputs)
-      .map(|(o, i)| TxIn {
+      .map(|o| TxIn {
         previous_output: *o,
         script_sig: ScriptBuf::new(),
         sequence: Sequence::ENABLE_RBF_NO_LOCKTIME,
-        witness: self.witness_for(m, &i.witness, total_out, &input_starts, auto_commit.as_deref()),
+        witness: Witness::new(),
       })
       .collect();
 
@@ -890,6 +901,12 @@ impl World {
       nonce += 1;
       tx.lock_time = LockTime::from_consensus(nonce);
     }
+    // the txid does not commit to the witnesses: envelopes may refer to it
+    OWN_TXID.with(|c| c.set(Some(tx.compute_txid())));
+    for (txin, i) in tx.input.iter_mut().zip(&spec.inputs) {
+      txin.witness = self.witness_for(m, &i.witness, total_out, &input_starts, auto_commit.as_deref());
+    }
+    OWN_TXID.with(|c| c.set(None));
     Some(tx)
   }
 
